@@ -138,7 +138,20 @@ def write(design, r, style=True):
     for c in design["comments"]:
         out.append("# " + c)
     decl = [m for m in design["models"] if m["declared"]]
-    first = [m for m in decl if style and r.random() < 0.3]       # some black boxes before the top model? no: top must be first
+    # any model order: some black boxes may be declared BEFORE the model that instantiates them
+    used = set(it["model"] for it in design["items"])
+    first = [m for m in decl if style and m["name"] in used and r.random() < 0.3]
+    decl = [m for m in decl if m not in first]
+
+    def blackbox(m):
+        out.append(".model " + m["name"])
+        out.append(".inputs " + " ".join(p if w == 1 else " ".join("%s[%d]" % (p, b) for b in range(w)) for p, w in m["inputs"]))
+        out.append(".outputs " + " ".join(p if w == 1 else " ".join("%s[%d]" % (p, b) for b in range(w)) for p, w in m["outputs"]))
+        out.append(".blackbox")
+        out.append(".end")
+        out.append("")
+    for m in first:
+        blackbox(m)
     out.append(".model " + design["top"])
 
     def wrap(words, head):
@@ -185,12 +198,7 @@ def write(design, r, style=True):
     out.append(".end")
     out.append("")
     for m in decl:
-        out.append(".model " + m["name"])
-        out.append(".inputs " + " ".join(p if w == 1 else " ".join("%s[%d]" % (p, b) for b in range(w)) for p, w in m["inputs"]))
-        out.append(".outputs " + " ".join(p if w == 1 else " ".join("%s[%d]" % (p, b) for b in range(w)) for p, w in m["outputs"]))
-        out.append(".blackbox")
-        out.append(".end")
-        out.append("")
+        blackbox(m)
     return "\n".join(out)
 
 
